@@ -164,6 +164,11 @@ class SymCtx:
   def cond(self, c):
     return _bt(c)
 
+  def ite(self, c, a, b):
+    """if-then-else TERM (no fork)"""
+    ta, tb = core._coerce(_t(a, True), _t(b, True))
+    return Sym(z3.If(_bt(c), ta, tb))
+
   def sq(self, x):
     return core.square_of(x)
 
@@ -356,6 +361,7 @@ class ConcCtx:
   def true(self): return True
   def false(self): return False
   def cond(self, c): return bool(c)
+  def ite(self, c, a, b): return a if bool(c) else b
   def sq(self, x): return x * x
   def finite(self, x): return bool(np.isfinite(float(x)))
 
